@@ -140,6 +140,150 @@ theorem safe_UPDATEN (n : Nat) (hty : Typing.step (.UPDATEN n) (st.map typeOf) =
 
 end
 
+/-! ### extension 2 -/
+theorem canon_keyHash {a : Val} (hw : WF a) (ht : typeOf a = .keyHash) : ∃ s, a = .atom .keyHash s := by
+  cases a <;> simp [typeOf] at ht <;> first | (subst ht; exact ⟨_, rfl⟩) | canon_rest
+theorem canon_key {a : Val} (hw : WF a) (ht : typeOf a = .key) : ∃ s, a = .atom .key s := by
+  cases a <;> simp [typeOf] at ht <;> first | (subst ht; exact ⟨_, rfl⟩) | canon_rest
+theorem canon_contract {a : Val} {t : Ty} (hw : WF a) (ht : typeOf a = .contract t) : ∃ s, a = .contract t s := by
+  cases a <;> simp [typeOf] at ht <;> first | (subst ht; exact ⟨_, rfl⟩) | canon_rest
+theorem canon_address {a : Val} (hw : WF a) (ht : typeOf a = .address) : ∃ s, a = .atom .address s := by
+  cases a <;> simp [typeOf] at ht <;> first | (subst ht; exact ⟨_, rfl⟩) | canon_rest
+/-- there is no well-formed value of type `never` -/
+theorem no_never {a : Val} (hw : WF a) (ht : typeOf a = .never) : False := by
+  cases a <;> simp [typeOf] at ht <;> canon_rest
+
+/-- the unary rules of extension 2 apply to every well-formed value of an operand type of their typing rule -/
+theorem unV_safe (env : Env) (i : Instr) (a : Val) (t : Ty) (hwa : WF a) (_ : litOk a = true)
+    (h : unTy i (typeOf a) = some t) : (Spec.unV env i a).Safe (fun r => litOk r = true) := by
+  generalize hta : typeOf a = ta at h
+  cases i <;> first | (simp [unTy] at h; done) | skip
+  · -- NAT
+    cases ta <;> first | (simp [unTy, natTy] at h; done) | skip
+    obtain ⟨s, rfl⟩ := canon_bytes hwa hta
+    simp [Spec.unV, Spec.natV]
+  · -- BYTES
+    cases ta <;> first | (simp [unTy, bytesTy] at h; done) | skip
+    · obtain ⟨n, rfl⟩ := canon_int hwa hta
+      simp [Spec.unV, Spec.bytesV]
+    · obtain ⟨n, rfl, hn⟩ := canon_nat hwa hta
+      simp [Spec.unV, Spec.bytesV, hn]
+  · -- VOTING_POWER
+    cases ta <;> first | (simp [unTy, votingPowerTy] at h; done) | skip
+    obtain ⟨s, rfl⟩ := canon_keyHash hwa hta
+    simp only [Spec.unV, Spec.votingPowerV]
+    exact numOk_safe .nat _ (Or.inr (Or.inl rfl))
+  · -- HASH_KEY
+    cases ta <;> first | (simp [unTy, hashKeyTy] at h; done) | skip
+    obtain ⟨s, rfl⟩ := canon_key hwa hta
+    simp [Spec.unV, Spec.hashKeyV]
+  · -- ADDRESS
+    cases ta <;> first | (simp [unTy, addressTy] at h; done) | skip
+    obtain ⟨s, rfl⟩ := canon_contract hwa hta
+    simp [Spec.unV, Spec.addressV]
+  · -- IMPLICIT_ACCOUNT
+    cases ta <;> first | (simp [unTy, implicitAccountTy] at h; done) | skip
+    obtain ⟨s, rfl⟩ := canon_keyHash hwa hta
+    simp [Spec.unV, Spec.implicitAccountV, litOk]
+  · -- CONTRACT
+    cases ta <;> first | (simp [unTy, contractTy] at h; done) | skip
+    obtain ⟨s, rfl⟩ := canon_address hwa hta
+    simp only [Spec.unV, Spec.contractV]
+    split
+    · simp
+    · split
+      · split <;> simp [litOk]
+      · simp [litOk]
+  · -- SET_DELEGATE
+    cases ta <;> first | (simp [unTy, setDelegateTy] at h; done) | skip
+    rename_i tk
+    cases tk <;> first | (simp [unTy, setDelegateTy] at h; done) | skip
+    rcases canon_option hwa hta with rfl | ⟨x, rfl, hx, hxt⟩
+    · simp [Spec.unV, Spec.setDelegateV, litOk]
+    · obtain ⟨s, rfl⟩ := canon_keyHash hx hxt
+      simp [Spec.unV, Spec.setDelegateV, litOk]
+  · -- EMIT
+    rename_i tag t'
+    simp only [unTy, emitTy] at h
+    split at h
+    · rename_i he
+      subst he
+      simp [Spec.unV, Spec.emitV, hta, litOk]
+    · simp at h
+  · -- PACK
+    simp only [unTy, packTy] at h
+    split at h
+    · rename_i hp
+      have hs := optBoth_some Mode.strict a ta (by rw [← hta]; exact hwa) hp
+      simp only [Spec.unV, Spec.packV, hta, hp, Bool.not_true, Bool.false_eq_true, if_false, Spec.optimized]
+      cases hb : Spec.optBoth a with
+      | none => simp [hb] at hs
+      | some y =>
+        simp only [Option.map_some]
+        cases Spec.encodeM y.1 <;> simp
+    · simp at h
+
+section
+variable (env : Env) (st : List Val) (tr : TRes) (hw : StackWF st) (hg : GoodStack st)
+include hw hg
+
+/-- instructions of the form `f a : S → r : S` with a type function `tf` -/
+theorem safe_unop (i : Instr) (f : Val → Res Val) (tf : Ty → Option Ty)
+    (hs : ∀ a st, Spec.step env i (a :: st) = (f a).bind fun r => .ok (r :: st))
+    (ht0 : Typing.step i [] = none)
+    (ht : ∀ a s, Typing.step i (a :: s) = (tf a).map fun t => .ok (t :: s))
+    (hf : ∀ a t, WF a → litOk a = true → tf (typeOf a) = some t → (f a).Safe (fun r => litOk r = true))
+    (hty : Typing.step i (st.map typeOf) = some tr) : (Spec.step env i st).Safe GoodStack := by
+  rcases st with _ | ⟨a, st⟩
+  · simp [ht0] at hty
+  rw [stackWF_cons] at hw
+  rw [goodStack_cons] at hg
+  simp only [List.map_cons, ht] at hty
+  cases htf : tf (typeOf a) with
+  | none => simp [htf] at hty
+  | some t =>
+    rw [hs]
+    exact (hf a t hw.1 hg.1 htf).bind fun r _ hr => by simp [goodStack_cons, hr, hg.2]
+
+theorem safe_TRANSFER_TOKENS (hty : Typing.step .TRANSFER_TOKENS (st.map typeOf) = some tr) :
+    (Spec.step env .TRANSFER_TOKENS st).Safe GoodStack := by
+  rcases st with _ | ⟨a, _ | ⟨b, _ | ⟨c, st⟩⟩⟩
+  · simp [Typing.step] at hty
+  · simp [Typing.step] at hty
+  · simp [Typing.step] at hty
+  rw [stackWF_cons, stackWF_cons, stackWF_cons] at hw
+  rw [goodStack_cons, goodStack_cons, goodStack_cons] at hg
+  have ht : Typing.step .TRANSFER_TOKENS ((a :: b :: c :: st).map typeOf)
+      = (transferTokensTy (typeOf a) (typeOf b) (typeOf c)).map fun t => .ok (t :: st.map typeOf) := rfl
+  rw [ht] at hty
+  generalize htb : typeOf b = tb at hty
+  generalize htc : typeOf c = tc at hty
+  cases tb <;> first | (simp [transferTokensTy] at hty; done) | skip
+  cases tc <;> first | (simp [transferTokensTy] at hty; done) | skip
+  rename_i t
+  simp only [transferTokensTy] at hty
+  split at hty
+  · rename_i hpt
+    obtain ⟨m, rfl, _⟩ := canon_mutez hw.2.1 htb
+    obtain ⟨s, rfl⟩ := canon_contract hw.2.2.1 htc
+    have hs : Spec.step env .TRANSFER_TOKENS (a :: Val.num .mutez m :: Val.contract t s :: st)
+        = (Spec.transferTokensV env a (.num .mutez m) (.contract t s)).bind fun r => .ok (r :: st) := rfl
+    rw [hs]
+    simp [Spec.transferTokensV, hpt, goodStack_cons, litOk, hg.2.2.2]
+  · simp at hty
+
+/-- NEVER is typed on a stack whose top has type `never`: there is no such stack of well-formed values -/
+theorem safe_NEVER (hty : Typing.step .NEVER (st.map typeOf) = some tr) : (Spec.step env .NEVER st).Safe GoodStack := by
+  rcases st with _ | ⟨a, st⟩
+  · simp [Typing.step] at hty
+  · rw [stackWF_cons] at hw
+    simp only [List.map_cons] at hty
+    generalize hta : typeOf a = ta at hty
+    cases ta <;> first | (simp [Typing.step] at hty; done) | skip
+    exact (no_never hw.1 hta).elim
+
+end
+
 /-- **progress, rules without sub-programs**: on a well-formed stack on which the typing rule of `i` applies, the
 reference rule of `i` is not stuck, and every set / map in its result stack is well-formed again.  (`PUSH` and `LAMBDA`,
 whose typing rule looks into the literal, are treated with the control instructions.) -/
@@ -220,5 +364,38 @@ theorem step_safe (env : Env) (i : Instr) (st : List Val) (tr : TRes) (hw : Stac
   case UNPAIRN n => exact safe_UNPAIRN env st tr hw hg n hty
   case GETN n => exact safe_GETN env st tr hw hg n hty
   case UPDATEN n => exact safe_UPDATEN env st tr hw hg n hty
+  case NEVER => exact safe_NEVER env st tr hw hg hty
+  case NAT =>
+    exact safe_unop env st tr hw hg .NAT (Spec.unV env .NAT) (unTy .NAT) (fun _ _ => rfl) rfl (fun _ _ => rfl)
+      (unV_safe env .NAT) hty
+  case BYTES =>
+    exact safe_unop env st tr hw hg .BYTES (Spec.unV env .BYTES) (unTy .BYTES) (fun _ _ => rfl) rfl (fun _ _ => rfl)
+      (unV_safe env .BYTES) hty
+  case VOTING_POWER =>
+    exact safe_unop env st tr hw hg .VOTING_POWER (Spec.unV env .VOTING_POWER) (unTy .VOTING_POWER) (fun _ _ => rfl) rfl
+      (fun _ _ => rfl) (unV_safe env .VOTING_POWER) hty
+  case HASH_KEY =>
+    exact safe_unop env st tr hw hg .HASH_KEY (Spec.unV env .HASH_KEY) (unTy .HASH_KEY) (fun _ _ => rfl) rfl
+      (fun _ _ => rfl) (unV_safe env .HASH_KEY) hty
+  case ADDRESS =>
+    exact safe_unop env st tr hw hg .ADDRESS (Spec.unV env .ADDRESS) (unTy .ADDRESS) (fun _ _ => rfl) rfl
+      (fun _ _ => rfl) (unV_safe env .ADDRESS) hty
+  case IMPLICIT_ACCOUNT =>
+    exact safe_unop env st tr hw hg .IMPLICIT_ACCOUNT (Spec.unV env .IMPLICIT_ACCOUNT) (unTy .IMPLICIT_ACCOUNT) (fun _ _ => rfl) rfl
+      (fun _ _ => rfl) (unV_safe env .IMPLICIT_ACCOUNT) hty
+  case CONTRACT t ep =>
+    exact safe_unop env st tr hw hg (.CONTRACT t ep) (Spec.unV env (.CONTRACT t ep)) (unTy (.CONTRACT t ep)) (fun _ _ => rfl) rfl
+      (fun _ _ => rfl) (unV_safe env (.CONTRACT t ep)) hty
+  case SET_DELEGATE =>
+    exact safe_unop env st tr hw hg .SET_DELEGATE (Spec.unV env .SET_DELEGATE) (unTy .SET_DELEGATE) (fun _ _ => rfl) rfl
+      (fun _ _ => rfl) (unV_safe env .SET_DELEGATE) hty
+  case EMIT tag t =>
+    exact safe_unop env st tr hw hg (.EMIT tag t) (Spec.unV env (.EMIT tag t)) (unTy (.EMIT tag t)) (fun _ _ => rfl) rfl
+      (fun _ _ => rfl) (unV_safe env (.EMIT tag t)) hty
+  case SELF ep t => simp [Spec.step, goodStack_cons, litOk, hg]
+  case TRANSFER_TOKENS => exact safe_TRANSFER_TOKENS env st tr hw hg hty
+  case PACK =>
+    exact safe_unop env st tr hw hg .PACK (Spec.unV env .PACK) (unTy .PACK) (fun _ _ => rfl) rfl
+      (fun _ _ => rfl) (unV_safe env .PACK) hty
 
 end Interp
